@@ -24,6 +24,13 @@ def cases(tier):
                'members': [{'m': m, 'cap': cap, 'rounds': ilog2(n * m), 'promises': [('sym' if j == 0 else None) for j in range(m)]} for (m, cap) in mems],
                'actions': ['VerifyOnly', 'RecoverAndVerify']}
         out.append({'cfg': cfg, 'kind': 'adversarial', 'name': 'k=%d n%d x%d %s' % (len(mems), n, x, mems)})
+    # the very same proof BYTES presented by several members under different statements (a wallet trying one proof against several outputs):
+    # every member still enters with its own challenges (they hash its own statement) and its own weight
+    for (n, x, k, same) in [(8, 1, 3, [None, 0, 0]), (4, 2, 4, [None, 0, None, 2]), (2, 1, 3, [None, None, 1])]:
+        cfg = {'scenario': 'adversarial', 'n': n, 'x': x,
+               'members': [dict({'m': 1, 'cap': 1, 'rounds': ilog2(n), 'promises': ['sym']}, **({'same_proof_as': sp} if sp is not None else {})) for sp in same],
+               'actions': ['VerifyOnly', 'RecoverAndVerify']}
+        out.append({'cfg': cfg, 'kind': 'adversarial', 'name': 'k=%d n%d x%d, members presenting the same proof bytes: %s' % (k, n, x, same)})
     # offsetting defects on honest proofs: +delta in one member, -delta in another, same coordinate
     for (n, x, k) in ([(8, 1, 2), (4, 2, 3)] if tier == 'quick' else [(8, 1, 2), (4, 2, 3), (64, 1, 2), (2, 6, 5)]):
         for coord in range(min(x, 2)):
